@@ -11,7 +11,7 @@ SYS_NOTE = ("Bounded design space D (spec/designs.py: curated core + VERIF_SEED 
 
 CHECKS = {
     "C01": dict(cat="other", tech="contract on synthesize_trials checked per design: all models of the real compiled CNF (SAT enumeration) + returned sequences vs reference predicate; wp-proved window/applicability links",
-                text="For each design of the bounded space D every model of the formula the library really compiles is enumerated (independent blocking loop), decoded with the library's decoder and must not be invalid under an independent reading of the documentation; sequences returned by IterateSATGen (thorough: CMSGen, UniGen, IterateGen) likewise. Unbounded content: the pyvc.wp proofs of the repetition-window and applicability functions and the C10/C12 encoder contracts it rests on.",
+                text="For each design of the bounded space D every model of the formula the library really compiles is enumerated (independent blocking loop), decoded with the library's decoder and must not be invalid under an independent reading of the documentation; sequences returned by IterateSATGen (thorough: CMSGen, UniGen, IterateGen) likewise; LatinSquare over two and three factors of unequal sizes is sampled and each sequence checked against the two checkable statements of its documentation. Unbounded content: the pyvc.wp proofs of the repetition-window and applicability functions and the C10/C12 encoder contracts it rests on.",
                 note=SYS_NOTE, ref="4.3 C01"),
     "C02": dict(cat="other", tech="exhausted IterateSATGen / projected model set of the compiled CNF vs brute-force valid set of the reference predicate, with multiplicities",
                 text="Per design of D whose whole sequence space can be enumerated: the set (and multiplicities) returned by exhausting IterateSATGen, and the projected model set of the compiled formula, equal the independently computed valid set (definitely-valid subset must be returned, nothing definitely invalid may be).",
@@ -30,8 +30,8 @@ CHECKS = {
                 note=SYS_NOTE + " Termination of the rejection loop is not proved: a worker exceeding the wall-clock limit is undecided.", ref="4.3 C06"),
     "C09": dict(cat="exploration", tech="requested-vs-returned counts and per-call multiplicities for IterateSATGen, RandomGen, IterateGen over D",
                 text="Bounded exploration: five requested counts around the number of available solutions per design and strategy; returned == min(requested, available); no sequence more often than the copy multiplicity of weighted levels outside the crossing.",
-                note="Bounded design space; 'available' is the strategy's own exhausted count (its exactness is C02/C06).", ref="4.3 C09"),
-    "C14": dict(cat="other", tech="every (trial, factor, level) of every design of D encoded by the real code vs independent closed-form layout, injectivity/range/decoding; z3 lemmas for layout injectivity; wp proof of applies_to_trial",
+                note="Bounded design space; that a strategy returns as many sequences as exist is checked relationally (union of the exhausted strategies' printed sequences) and against the reference reading in C02/C06; a requested count for which a call raises is a finding of that row.", ref="4.3 C09 / 11"),
+    "C14": dict(cat="other", tech="every (trial, factor, level) of every design of D encoded by the real code vs independent closed-form layout, injectivity/range/decoding; z3 lemmas for layout injectivity; wp proofs of applies_to_trial and _get_previous_trials_variable_count (memo table with representation invariant)",
                 text="Per design of D all choices are encoded with _encode_variable and compared with an independently computed closed form, checked distinct, in range, inverted by decode_variable and consistent with factor_variables_for_trial and the cached counter; Gen.decode is run on all (or 300 seeded) one-hot assignments; auxiliary ids lie above. The closed-form layouts are proved injective and ranged for all geometries by z3.",
                 note="Bounded design space; the layout lemma is about the closed form, which is compared with (not extracted from) the code.", ref="4.1 C14"),
     "C15": dict(cat="exploration", tech="exhaustive truth-table enumeration of derived-factor predicates per shape through the public API",
@@ -45,20 +45,20 @@ CHECKS = {
                 note=SYS_NOTE + " Candidates carry correct derived levels; designs whose crossing is unsatisfiable by construction are not judged.", ref="4.3 C17"),
     "C18": dict(cat="exploration", tech="histories: families of 2-3 blocks sharing factor/constraint objects built in every order vs fresh builds (solution sets, mismatch verdicts)",
                 text="Bounded exploration over construction orders: each block built from shared objects must equal its fresh build in trial count, exhausted IterateSATGen set and sample_mismatch_experiment verdicts.",
-                note="Families cover each window-scoped constraint class across CrossBlock/Repeat/Merge/Nest and shared transition/weighted factors.", ref="4.3 C18"),
+                note="Families cover each window-scoped constraint class across CrossBlock/Repeat/Merge/Nest, shared transition/weighted factors, shared constraint LISTS, and Merge/Nest called without a constraints argument after other combinators; the fresh build of every block runs in a process of its own.", ref="4.3 C18 / 11"),
     "C19": dict(cat="exploration", tech="histories of library calls with ghost snapshots of the block's design-relevant state (frame condition) and a final synthesize_trials",
-                text="All single calls and seeded call sequences (length 2 quick / 3 thorough) over nine call kinds on 13 blocks incl. four with continuous factors; the snapshot must be unchanged after every call and the final synthesis must succeed, be valid and return the same columns.",
+                text="All single calls, every strategy called twice, and seeded call sequences (length 2 quick / 3 thorough) over eleven call kinds (five strategies incl. SMGen, CMSGen) on 15 blocks incl. four with continuous factors; a synthesize_trials call that raises inside a history although it succeeds as the first call on a fresh block in a process of its own is a violation; the snapshot must be unchanged after every call and the final synthesis must succeed, be valid and return the same columns.",
                 note="State snapshot covers design, orig_design, crossings, constraint classes, continuous factors, exclusions, min_trials, act_design, errors, level names.", ref="4.3 C19"),
     "C20": dict(cat="exploration", tech="bounded contract evaluation of the conversion functions on synthesized and arbitrary experiments; CSV read back; hidden-factor exposure check over D",
                 text="Per design of D (incl. weighted factors outside the crossing) tuples/dicts/CSV outputs must reproduce the user factors' values per trial in design order and nothing else; raw helpers on random experiment lists.",
                 note="csv module used as reader.", ref="4.1 C20"),
     "C21": dict(cat="exploration", tech="contract on captured stdout of tabulate_experiments over seeded experiments, factor and trial selections",
                 text="Printed frequency == count of selected trials with the combination; percentage == 100*frequency/selected within 1e-9; every combination once.",
-                note="At least one selected trial; the counting loop is inside a printing function and outside the deductive engines.", ref="4.1 C21"),
-    "C22": dict(cat="exploration", tech="recording distributions; exhaustive window shapes and constraint truth patterns; seeded end-to-end designs in killable workers",
+                note="At least one selected trial; experiments include trials whose value is '' or a level the selected Factor does not list; the counting loop is inside a printing function and outside the deductive engines.", ref="4.1 C21"),
+    "C22": dict(cat="other", tech="pyvc.wp proofs of Block._check_constraints and ContinuousFactorWindow.get_window_val/_return_nan on the real source (dicts as arrays, predicates abstract) + recording distributions and seeded end-to-end designs (bounded)",
                 text="get_window_val vs the documented window for all shapes (exhaustive in the bound), _check_constraints for all truth patterns, and end-to-end assembly (inputs received by dependent distributions, one value per trial, constraints hold, discrete part valid).",
-                note="No deductive part (dicts, NaN, isinstance dispatch are outside pyvc.wp); termination of resampling not claimed.", ref="4.1 C22"),
-    "C23": dict(cat="exploration", tech="relational: weighted design vs copy-expanded twin, both samplers exhausted, renamed back",
+                note="Proved for all inputs: _check_constraints (True iff every ContinuousConstraint predicate holds at every trial, called on exactly that trial's values) and get_window_val (documented window incl. NaN cases). Bounded: the assembly in _sample_continuous and the resample loop (termination not claimed). float('nan') is an opaque constant, attribute reads are uninterpreted functions.", ref="4.1 C22 / 11"),
+    "C23": dict(cat="other", tech="relational: weighted design vs copy-expanded twin, both samplers exhausted, renamed back; pyvc.wp proof of Cross.__add_weight_constraint (counting requests per chunk, weight*crossing_weight)",
                 text="Printed sequence sets equal; weighted levels of factors in every crossing add no distinct solutions; for factors that are not in every crossing the multiset of solutions equals that of the twin in which exactly those factors have separately named copies (C23.twin.partly).",
                 note="Constraints naming a weighted level are excluded from the twin comparison. Known finding D19 (known_findings.json): copies of a weighted factor that is in some but not every crossing are not distinct solutions.", ref="4.3 C23"),
     "C24": dict(cat="exploration", tech="relational: documented constructor equivalences, both sides built fresh, T and exhausted IterateSATGen sets compared",
@@ -80,23 +80,23 @@ CHECKS = {
                 text="Safety obligations (index in bounds, divisor non-zero, undeclared raise unreachable) of the window/unranking functions are proved by pyvc.wp for all inputs; every design of D that the constructors accept is synthesized with IterateSATGen and RandomGen (thorough: CMSGen, UniGen) and must not raise.",
                 note=SYS_NOTE, ref="4.3 C08"),
     "C10": dict(cat="other", tech="contracts on the real encoders; concolic execution + z3 per shape (ids/assignments unbounded), Lemma DE; int_to_binary proved by pyvc.wp; native SAT replay",
-                text="Per (relation, n, k) shape the real encoder is executed with symbolic variable ids and z3 proves, for all ids and all 2^n assignments at once, that the asserted clauses hold iff the count relation holds, against the callee contracts of pop_count/ripple_carry, and that every auxiliary variable is defined exactly once (unique extension). Bounded only in n and k (quick n<=9, thorough n<=16,k<=40); int_to_binary is proved for all k by pyvc.wp; dispatch and request round-trip are bounded evaluation on the real code.",
+                text="Per (relation, n, k) shape the real encoder is executed with symbolic variable ids and z3 proves, for all ids and all 2^n assignments at once, that the asserted clauses hold iff the count relation holds, against the callee contracts of pop_count/ripple_carry, and that every auxiliary variable is defined exactly once (unique extension). Bounded only in n and k (quick n<=9, thorough n<=16,k<=40); int_to_binary is proved for all k by pyvc.wp; dispatch, request round-trip, ordered pairs of requests over one variable list in one formula, and spot checks on large lists (n around every power of two up to 1024, fully specified inputs) are bounded evaluation on the real code.",
                 note="Bounded in (n,k); Lemma DE is a paper lemma; z3/cvc5 and pycryptosat trusted; math.log evaluated concretely per shape.", ref="4.1 C10"),
     "C13": dict(cat="other", tech="pyvc.wp proofs (mixed-radix / base-n / falling-factorial unranking: rank equation, ranges, termination) + exhaustive bounded bijection checks against itertools",
-                text="extract_components, compute_jth_combination and compute_jth_inversion_sequence are proved for all inputs (digits in range, rank(result) + (j div N) N == j, loops terminate, no division by zero); the search-based functions (combinations without replacement, permutation prefixes, permutations with copies and their prefixes, counting functions, shared memo) are enumerated completely for every parameter tuple in a stated bound.",
+                text="extract_components, compute_jth_combination and compute_jth_inversion_sequence are proved for all inputs (digits in range, rank(result) + (j div N) N == j, loops terminate, no division by zero); construct_permutation is proved to stay in bounds and to return pairwise distinct indices below orig_n (a permutation prefix), n_choose_m_given_m_factorial to compute the falling factorial and its floor quotient; the search-based functions (combinations without replacement, permutation prefixes, permutations with copies and their prefixes, counting functions, shared memo) are enumerated completely for every parameter tuple in a stated bound.",
                 note="Bijection for the three proved functions follows from the rank equation by finite pigeonhole (paper). The other eight functions are bounded (counters<=3, total<=7/8, n<=5/6).", ref="4.1 C13"),
     "C28": dict(cat="other", tech="real OPB renderers run per shape; text evaluated by an independent pseudo-Boolean evaluator under all assignments (truth table)",
-                text="Every clause (<=3/4 literals over 5 ids), every request (kind, n<=5/6, k) and every blocking constraint (support<=4/5) is rendered by the real functions and compared with the SAT-side meaning under all assignments: complete per shape, bounded in shape.",
+                text="Every clause as a multiset of literals (<=3/4 literals over 5 ids; repeated and complementary literals included), every request (kind, n<=5/6, k) and every blocking constraint (support<=4/5) is rendered by the real functions and compared with the SAT-side meaning under all assignments: complete per shape, bounded in shape.",
                 note="spec/opb.py evaluator trusted; Gurobi absent so only the exported text is judged.", ref="4.1 C28"),
     "C11": dict(cat="other", tech="contracts on the three converters evaluated for every formula of a bounded space under all assignments (truth table); cnf_to_json faithfulness",
                 text="For every formula with <= 2 connectives over 5 literals (plus n-ary/empty And/Or), seeded larger formulas and id renamings, under ALL assignments: Tseitin has exactly the formula's models on the original variables with a unique extension and fresh ids in the reported range; naive is equivalent without new variables; switching has the same projected models. Complete per formula, bounded in formula size — the quantifier the property itself names.",
-                note="Truth-table evaluator trusted; structural-induction node lemmas are not machine-checked (the recursion over namedtuples/str cache keys is outside pyvc.wp).", ref="4.1 C11"),
+                note="Truth-table evaluator trusted. _Cache.get is proved for all inputs by pyvc.wp (fresh representatives from next_variable, one per key, frame); the node contracts of the Tseitin recursion (miss defines rep <-> op(children), hit is silent, nodes sharing a cache key are equivalent) are checked per node over a bounded operand domain; the structural induction itself is a paper argument.", ref="4.1 C11 / 11"),
     "C27": dict(cat="exploration", tech="bounded contract evaluation of the DIMACS writers, the library's two parsers and update_file against an independent reader; blocking clause by truth table",
-                text="Round trips of compiled formulas of D and seeded clause sets through save_cnf, both library parsers and update_file; header counts; sampling-set lines across the 10-per-line chunking; synthetic solver outputs incl. wrapped v-lines; the blocking clause is evaluated under all assignments of supports <= 5.",
+                text="Round trips of compiled formulas of D and seeded clause sets through save_cnf, both library parsers and update_file; header counts; sampling-set lines across the 10-per-line chunking; synthetic solver outputs incl. wrapped v-lines; the blocking clause is evaluated under all assignments of supports <= 5; wide formulas (1300 / 3000 support variables) make the blocking clause thousands of characters long, two update_file iterations each.",
                 note="String theories were not used (unstable per the brief); formulas with contiguous ids and non-empty clauses as the library generates them.", ref="4.1 C27"),
     "C12": dict(cat="other", tech="contracts on the real builders; concolic execution, gates proved for all inputs (loop-free, all paths), adders/pop count per width by z3 against callee contracts",
-                text="half/full/saturate adders: loop-free, every path explored and covered by the precondition, clause set equivalent to the definitions for all ids and assignments (proved). ripple_carry, ripple_saturate, pop_count: proved per width against callee contracts (sum equation with documented top-bit saturation; every fresh variable defined exactly once => no other freedom). Bounded in width only.",
-                note="Widths bounded (quick: ripple<=10, pop count n<=16); Lemma DE on paper; SMT solvers trusted.", ref="4.1 C12"),
+                text="half/full/saturate adders: loop-free, every path explored and covered by the precondition, clause set equivalent to the definitions for all ids and assignments (proved). ripple_carry and ripple_saturate: additionally proved for EVERY width and saturation point by pyvc.wp (loop invariants over partial sums, adders by contract). pop_count: proved per width against callee contracts (sum equation with documented top-bit saturation; every fresh variable defined exactly once => no other freedom), plus two counts over one variable list in one formula (bounded, native SAT).",
+                note="pop_count bounded in n (quick n<=16); the wp proofs show 'clauses imply the sum equation' for all widths, the 'no other freedom' half is the per-width Lemma-DE side condition; SMT solvers trusted.", ref="4.1 C12 / 11"),
 }
 
 
@@ -115,7 +115,7 @@ def main():
              engines=[dict(name="pyvc", path="/verif/pyvc", serves_properties=sorted(CHECKS),
                            kind_free_text="contract checker for the real Python code: pyvc.wp (AST -> verification conditions, z3/cvc5), pyvc.concolic (real CPython code on symbolic integers), bounded contract evaluation on the real functions")],
              checks=checks,
-             notes="See DESIGN.md (section 10: as built, defects, known findings D14 and D19, corrected false alarms). fix: commits in /repo and known findings are listed in /verif/known_findings.json.",
+             notes="See DESIGN.md (section 10: as built, defects, known findings D14 and D19, corrected false alarms; section 11: round 3 — engine extensions, seeded changes and which checks catch them, defects D20-D25). fix: commits in /repo and known findings are listed in /verif/known_findings.json.",
              not_applicable=[dict(property_id=p["id"], reason=na_reasons.get(p["id"], "check not built yet (build in progress)"))
                              for p in props if p["id"] not in CHECKS])
     (ROOT / "MANIFEST.json").write_text(json.dumps(m, indent=1))
